@@ -203,6 +203,18 @@ func c15Run(c string) string {
 				return "SETUP delete"
 			}
 		}
+		// and every point of the exported node itself is deleted (tombstone 1): the import writes them again, newer
+		if tops, err := client.GetNodes(c15A.nc, "all", c06ID(prefix, expID), "", false); err == nil && len(tops) > 0 {
+			var del data.Points
+			for _, p := range tops[0].Points {
+				del = append(del, data.Point{Type: p.Type, Key: p.Key, Tombstone: 1, Time: time.Unix(0, 5000)})
+			}
+			if len(del) > 0 {
+				if err := client.SendNodePoints(c15A.nc, c06ID(prefix, expID), del, true); err != nil {
+					return "SETUP delete points"
+				}
+			}
+		}
 	}
 	err = client.ImportNodes(target.nc, importAt, y, "imp", mode == "p")
 	retire := func() {
